@@ -24,6 +24,10 @@ res = {}
 for mid in ids:
     prop = mid.split("_")[0]
     patch = os.path.join(V, "seeded", mid, "patch.diff")
+    if not os.path.exists(patch):
+        res[mid] = {"status": "superseded", "detail": json.load(open(os.path.join(V, "seeded", mid, "meta.json"))).get("superseded", "")[:300]}
+        print(mid, "superseded", flush=True)
+        continue
     subprocess.run(["git", "-C", repo, "checkout", "-q", "--", "."], check=True)
     a = subprocess.run(["git", "-C", repo, "apply", patch], capture_output=True, text=True)
     if a.returncode != 0:
